@@ -72,6 +72,16 @@ package logqlmetric
 //@ func build
 //@   capture s  = call(sel, 0)
 //@   capture ra = call(RangeAggregation, 0)
+//@   capture ll = call(LiteralBinOp, 0)
+//@   capture lr = call(LiteralBinOp, 1)
+//@   capture bo = call(BinOp, 0)
+//@   capture b1 = call(build, 1)
+//@   capture b2 = call(build, 2)
+//@   capture b3 = call(build, 3)
+//@   capture b4 = call(build, 4)
+//@   ensures[literal-on-the-left]  ll_called ==> ll_a3 && b1_called && ll_a0 == b1_r0 && b1_a0 == old(ll_a1.Right) && same(ll_a2, old(as[*logql.LiteralExpr](ll_a1.Left).Value))
+//@   ensures[literal-on-the-right] lr_called ==> !lr_a3 && b2_called && lr_a0 == b2_r0 && b2_a0 == old(lr_a1.Left) && same(lr_a2, old(as[*logql.LiteralExpr](lr_a1.Right).Value))
+//@   ensures[vector-vector]        bo_called ==> b3_called && b4_called && bo_a0 == b3_r0 && bo_a1 == b4_r0 && b3_a0 == old(bo_a2.Left) && b4_a0 == old(bo_a2.Right)
 //@   ensures[sampled-interval-start] s_called ==> s_a1 == params.Start.Add(-old(offsetOf(s_a0))).Add(-old(s_a0.Range.Range))
 //@   ensures[sampled-interval-end]   s_called ==> s_a2 == params.End.Add(-old(offsetOf(s_a0)))
 //@   ensures[grid-unshifted]         ra_called ==> ra_a2 == params.Start && ra_a3 == params.End && ra_a4 == params.Step
@@ -111,3 +121,105 @@ package logqlmetric
 //@   ensures[window-end]   ret0 ==> fw_called && fw_a1 == st_r0.Add(-old(i.offset))
 //@   ensures[window-start] ret0 ==> fw_called && fw_a0 == st_r0.Add(-old(i.offset)).Add(-old(i.interval))
 //@   ensures[stamp-is-evaluation-time] ret0 ==> r.Timestamp == otelstorage.NewTimestampFromTime(st_r0)
+
+// ---- C12: binary operations
+
+//@ func buildSampleBinOp
+//@   logical l Sample
+//@   logical r Sample
+//@   modifies nothing
+//@   ensures[labels-of-left] ret1 == nil ==> same(first(ret0(l, r)).Set, l.Set)
+//@   ensures[add] expr.Op == logql.OpAdd ==> ret1 == nil && same(first(ret0(l, r)).Data, l.Data + r.Data) && second(ret0(l, r))
+//@   ensures[sub] expr.Op == logql.OpSub ==> ret1 == nil && same(first(ret0(l, r)).Data, l.Data - r.Data) && second(ret0(l, r))
+//@   ensures[mul] expr.Op == logql.OpMul ==> ret1 == nil && same(first(ret0(l, r)).Data, l.Data * r.Data) && second(ret0(l, r))
+//@   ensures[div] expr.Op == logql.OpDiv ==> ret1 == nil && same(first(ret0(l, r)).Data, ite(r.Data != 0, l.Data / r.Data, math.NaN())) && second(ret0(l, r))
+//@   ensures[mod] expr.Op == logql.OpMod ==> ret1 == nil && same(first(ret0(l, r)).Data, ite(r.Data != 0, math.Mod(l.Data, r.Data), math.NaN())) && second(ret0(l, r))
+//@   ensures[pow] expr.Op == logql.OpPow ==> ret1 == nil && same(first(ret0(l, r)).Data, math.Pow(l.Data, r.Data)) && second(ret0(l, r))
+//@   ensures[eq]  expr.Op == logql.OpEq    ==> ret1 == nil && (first(ret0(l, r)).Data == 1) == (l.Data == r.Data) && (l.Data == r.Data ==> second(ret0(l, r)))
+//@   ensures[neq] expr.Op == logql.OpNotEq ==> ret1 == nil && (first(ret0(l, r)).Data == 1) == (l.Data != r.Data) && (l.Data != r.Data ==> second(ret0(l, r)))
+//@   ensures[gt]  expr.Op == logql.OpGt    ==> ret1 == nil && (first(ret0(l, r)).Data == 1) == (l.Data > r.Data) && (l.Data > r.Data ==> second(ret0(l, r)))
+//@   ensures[gte] expr.Op == logql.OpGte   ==> ret1 == nil && (first(ret0(l, r)).Data == 1) == (l.Data >= r.Data) && (l.Data >= r.Data ==> second(ret0(l, r)))
+//@   ensures[lt]  expr.Op == logql.OpLt    ==> ret1 == nil && (first(ret0(l, r)).Data == 1) == (l.Data < r.Data) && (l.Data < r.Data ==> second(ret0(l, r)))
+//@   ensures[lte] expr.Op == logql.OpLte   ==> ret1 == nil && (first(ret0(l, r)).Data == 1) == (l.Data <= r.Data) && (l.Data <= r.Data ==> second(ret0(l, r)))
+//@   ensures[logic-ops-rejected] (expr.Op == logql.OpAnd || expr.Op == logql.OpOr || expr.Op == logql.OpUnless) ==> ret1 != nil
+
+//@ func (*literalBinOpIterator).Next
+//@   assume_pure i.op
+//@   capture op = call(i.op, 0)
+//@   modifies *
+//@   loop 0 modifies r.Samples[*]
+//@   loop 0 invariant 0 <= n && n <= rangeindex+1 && rangeindex+1 <= len(r.Samples)
+//@   loop 0 body_ensures[literal-on-written-side] op_called && (i.left ==> same(op_a0.Data, i.value) && same(op_a1, agg)) && (!i.left ==> same(op_a1.Data, i.value) && same(op_a0, agg))
+//@   loop 0 body_ensures[literal-has-sample-labels] same(ite(i.left, op_a0.Set, op_a1.Set), agg.Set)
+//@   loop 0 body_ensures[kept-iff-op-keeps] op_r1 == (n == head(n)+1) && (!op_r1 == (n == head(n)))
+//@   loop 0 body_ensures[result-compacted-in-order] op_r1 ==> same(r.Samples[head(n)], op_r0)
+
+//@ func samplesSet
+//@   logical anyKey GroupingKey
+//@   assume_pure grouper
+//@   modifies nothing
+//@   ensures[every-sample-key-present] forall(0, len(samples), func(j int) bool { return has(ret0, grouper(samples[j].Set, groupLabels...).Key()) })
+//@   ensures[no-other-key] has(ret0, anyKey) ==> exists(0, len(samples), func(j int) bool { return grouper(samples[j].Set, groupLabels...).Key() == anyKey })
+//@   loop 0 modifies r[*]
+//@   loop 0 invariant rangeindex+1 <= len(samples) && r != nil
+//@   loop 0 invariant forall(0, rangeindex+1, func(j int) bool { return has(r, grouper(samples[j].Set, groupLabels...).Key()) })
+//@   loop 0 invariant has(r, anyKey) ==> exists(0, rangeindex+1, func(j int) bool { return grouper(samples[j].Set, groupLabels...).Key() == anyKey })
+
+// and: left samples whose key is on the right
+//@ func buildMergeSamplesOp$1
+//@   assume_pure grouper
+//@   capture k = call(grouper(s.Set,groupLabels...).Key, 0)
+//@   loop 0 modifies result[*]
+//@   ensures[empty-side] (len(left) == 0 || len(right) == 0) ==> len(result) == 0
+//@   loop 0 invariant rangeindex+1 <= len(left)
+//@   loop 0 body_ensures[keeps-left-sample-iff-key-on-right] k_called && same(k_recv, grouper(s.Set, groupLabels...)) && (len(result) == head(len(result))+1) == has(rightSamples, k_r0) && (len(result) == head(len(result))) == !has(rightSamples, k_r0)
+//@   loop 0 body_ensures[appends-that-sample] len(result) == head(len(result))+1 ==> same(result[len(result)-1], s)
+//@   loop 0 body_ensures[current-left-sample] same(s, left[rangeindex])
+
+// unless: left samples whose key is not on the right
+//@ func buildMergeSamplesOp$3
+//@   assume_pure grouper
+//@   capture k = call(grouper(s.Set,groupLabels...).Key, 0)
+//@   loop 0 modifies result[*]
+//@   loop 0 invariant rangeindex+1 <= len(left)
+//@   loop 0 body_ensures[keeps-left-sample-iff-key-not-on-right] k_called && same(k_recv, grouper(s.Set, groupLabels...)) && (len(result) == head(len(result))+1) == !has(rightSamples, k_r0) && (len(result) == head(len(result))) == has(rightSamples, k_r0)
+//@   loop 0 body_ensures[appends-that-sample] len(result) == head(len(result))+1 ==> same(result[len(result)-1], s)
+//@   loop 0 body_ensures[current-left-sample] same(s, left[rangeindex])
+
+// or: all left samples, then right samples whose key is not on the left
+//@ func buildMergeSamplesOp$2
+//@   assume_pure grouper
+//@   capture k = call(grouper(s.Set,groupLabels...).Key, 0)
+//@   loop 0 modifies result[*]
+//@   ensures[left-empty] len(left) == 0 ==> same(result, right)
+//@   ensures[right-empty] len(left) != 0 && len(right) == 0 ==> same(result, left)
+//@   loop 0 invariant rangeindex+1 <= len(right) && len(result) >= len(left)
+//@   loop 0 body_ensures[adds-right-sample-iff-key-not-on-left] k_called && same(k_recv, grouper(s.Set, groupLabels...)) && (len(result) == head(len(result))+1) == !has(leftSamples, k_r0) && (len(result) == head(len(result))) == has(leftSamples, k_r0)
+//@   loop 0 body_ensures[appends-that-sample] len(result) == head(len(result))+1 ==> same(result[len(result)-1], s)
+
+//@ func (*binOpIterator).Next
+//@   assume_pure i.op
+//@   capture ln = call(i.left.Next, 0)
+//@   capture rn = call(i.right.Next, 0)
+//@   capture k0 = call(s.Set.Key, 0)
+//@   capture k1 = call(rsample.Set.Key, 0)
+//@   capture op = call(i.op, 0)
+//@   modifies *
+//@   ensures[both-sides-advance] ret0 ==> ln_called && ln_r0 && rn_called && rn_r0
+//@   ensures[timestamp-of-left] ret0 ==> r.Timestamp == left.Timestamp
+//@   loop 0 invariant rangeindex+1 <= len(left.Samples) && leftSamples != nil
+//@   loop 0 body_ensures[left-indexed-by-key] k0_called && has(leftSamples, k0_r0) && same(leftSamples[k0_r0], s)
+//@   loop 1 modifies r.Samples, r.Samples[*]
+//@   loop 1 invariant rangeindex+1 <= len(right.Samples)
+//@   loop 1 body_ensures[joined-by-key] k1_called && op_called == has(leftSamples, k1_r0)
+//@   loop 1 body_ensures[operands-left-then-right] op_called ==> same(op_a0, leftSamples[k1_r0]) && same(op_a1, rsample)
+//@   loop 1 body_ensures[result-appended-iff-kept] (len(r.Samples) == head(len(r.Samples))+1) == (op_called && op_r1) && (len(r.Samples) == head(len(r.Samples))) == !(op_called && op_r1)
+//@   loop 1 body_ensures[appends-op-result] op_called && op_r1 ==> same(r.Samples[len(r.Samples)-1], op_r0)
+
+//@ func LiteralBinOp
+//@   ensures[fields] ret1 == nil ==> typeis[*literalBinOpIterator](ret0) && as[*literalBinOpIterator](ret0).iter == iter && same(as[*literalBinOpIterator](ret0).value, value) && as[*literalBinOpIterator](ret0).left == left
+
+//@ func BinOp
+//@   ensures[modifiers-unsupported] (old(expr.Modifier.Op) != "" || old(len(expr.Modifier.OpLabels)) > 0 || old(expr.Modifier.Group) != "" || old(len(expr.Modifier.Include)) > 0) ==> ret1 != nil
+//@   ensures[set-operators] ret1 == nil && (old(expr.Op) == logql.OpAnd || old(expr.Op) == logql.OpOr || old(expr.Op) == logql.OpUnless) ==> typeis[*mergeBinOpIterator](ret0) && as[*mergeBinOpIterator](ret0).left == left && as[*mergeBinOpIterator](ret0).right == right
+//@   ensures[sample-operators] ret1 == nil && !(old(expr.Op) == logql.OpAnd || old(expr.Op) == logql.OpOr || old(expr.Op) == logql.OpUnless) ==> typeis[*binOpIterator](ret0) && as[*binOpIterator](ret0).left == left && as[*binOpIterator](ret0).right == right
